@@ -16,10 +16,12 @@ VType  == { <<48>>, <<51>>, <<52>>, <<49,55>>, <<45,53>>, <<49,48,48,48,48,48,48
 Tails  == { <<>>, <<97>>, <<97,59,98>>, <<59>> }                 \* "", a, a;b, ;
 \* small valid context for the invalid classes
 CNode == { <<49>> }  CChild == { <<48>>, <<50,53,53>> }  CCmd == { <<49>>, <<51>> }  CAck == { <<48>> }  CType == { <<48>>, <<51>> }
+Huge == [i \in 1..4400 |-> 57]      \* longer than CPython's default limit for int(str)
 \* invalid / gray classes: one past the range, negative, huge, alphabetic, empty, float form, padded, signed, leading zero
 Bad == { <<50,53,54>>, <<45,49>>, <<57,57,57,57,57,57,57,57,57,57,57>>, <<97>>, <<>>, <<49,46,48>>,
-         <<32,49>>, <<43,49>>, <<48,48,55>>, <<49,101,51>>, <<49,95,49>>, <<53>>, <<50>>, <<45,48>> }
-BadType == { <<97>>, <<>>, <<49,46,48>>, <<49,101,51>>, <<48,53>>, <<32,51>>, <<45>> }
+         <<32,49>>, <<43,49>>, <<48,48,55>>, <<49,101,51>>, <<49,95,49>>, <<53>>, <<50>>, <<45,48>>,
+         <<178>>, <<1635>>, Huge }       \* superscript two, an Arabic-Indic digit, a 4400-digit number
+BadType == { <<97>>, <<>>, <<49,46,48>>, <<49,101,51>>, <<48,53>>, <<32,51>>, <<45>>, <<178>>, Huge }
 
 Five == (VNode \X VChild \X VCmd \X VAck \X VType)
         \cup (Bad \X CChild \X CCmd \X CAck \X CType)
